@@ -83,7 +83,7 @@ func init() {
 	verifIntrinsics["verifLiveGoroutines"] = func(in *Interp, _ *frame, _ []Value) Value {
 		n := 0
 		lifo := in.sched.lifo
-		in.sched.lifo = false // (yielding to oneself under last-in-first-out would never end)
+		in.sched.lifo = false        // (yielding to oneself under last-in-first-out would never end)
 		for len(in.sched.runq) > 0 { // let runnable goroutines reach a blocking point or exit
 			in.sched.makeRunnable(in.sched.cur)
 			in.sched.block()
